@@ -16,7 +16,7 @@ def _add_surfaces(d, rng, n, macro_p, tr_p, kinds=None, mkinds=None):
         if rng.random() < tr_p:
             m, cls = G.random_motion(rng)
             num = max(d.trs, default=0) + rng.choice([1, 2, 5])
-            d.trs[num] = (m, {'star': rng.random() < 0.3 and cls != 'generic', 'cls': cls})
+            d.trs[num] = (m, {'star': rng.random() < 0.3 and cls not in ('generic', 'mirror'), 'cls': cls})
             s.tr, s.trnum = m, num
         d.surfs.append(s)
         out.append(s)
@@ -56,11 +56,11 @@ def _partition(d, rng, refs, ncells, depth, universe, next_id, p_obf=0.15):
 def _spell_motion(d, rng, m, cls, cell, kind):
     """choose how a TRCL / FILL transformation is written: by TR number, inline, or starred inline"""
     how = rng.choice(['num', 'inline', 'inline', 'star'])
-    if how == 'star' and cls == 'generic':
+    if how == 'star' and cls in ('generic', 'mirror'):
         how = 'inline'
     if how == 'num':
         num = max(d.trs, default=0) + rng.choice([1, 3])
-        d.trs[num] = (m, {'star': rng.random() < 0.3 and cls != 'generic', 'cls': cls})
+        d.trs[num] = (m, {'star': rng.random() < 0.3 and cls not in ('generic', 'mirror'), 'cls': cls})
         cell.hints[kind + '_num'] = num
     elif how == 'star':
         cell.hints[kind + '_star'] = True
@@ -145,14 +145,14 @@ def _build_universe_deck(rng, depth=None, macro_p=0.15, tr_p=0.1, fill_tr_p=0.6,
         c.mat, c.rho = 0, None
         c.fill = {'u': u, 'tr': None}
         if rng.random() < p_ft:
-            m, cls = G.random_motion(rng, rng.choice(rot_classes) if rot_classes else None)
+            m, cls = G.random_motion(rng, rng.choice(rot_classes) if rot_classes else ('mirror' if rng.random() < 0.1 else None))
             if rng.random() < 0.12:
                 # an explicit identity FILL transformation still takes precedence over the cell's TRCL
                 m, cls = D.Motion([0.0, 0.0, 0.0], list(D.IDENT)), 'id'
             c.fill['tr'] = m
             _spell_motion(d, rng, m, cls, c, 'fill')
         if rng.random() < p_tc:
-            m, cls = G.random_motion(rng, rng.choice(rot_classes) if rot_classes else None)
+            m, cls = G.random_motion(rng, rng.choice(rot_classes) if rot_classes else ('mirror' if rng.random() < 0.1 else None))
             c.trcl = m
             _spell_motion(d, rng, m, cls, c, 'trcl')
 
